@@ -284,6 +284,21 @@ func runOwnHist(seed uint64, n int, sqls, special []string, concurrent bool) own
 	gcOld := debug.SetGCPercent(-1)
 	defer debug.SetGCPercent(gcOld)
 	rg := &rng{s: seed}
+	// statements the parser rejects are used only by the dedicated failed-parse step (such a step may lose
+	// pooled objects the parser had obtained: the history is then marked lossy)
+	var good, rejected []string
+	for _, q := range sqls {
+		if tr, err := gosqlx.Parse(q); err == nil && tr != nil {
+			ast.ReleaseAST(tr)
+			good = append(good, q)
+		} else {
+			rejected = append(rejected, q)
+		}
+	}
+	if len(good) > 0 {
+		sqls = good
+	}
+	rejected = append(rejected, "SELECT (1, 2, FROM t", "SELECT ARRAY[1, 2 FROM t", "SELECT a[1:2 FROM t", "SELECT (a, b, c")
 	for hi := 0; hi < n; hi++ {
 		drainPools()
 		r := &ownRun{ids: map[interface{}]int{}, owner: map[interface{}]int{}, res: &res}
@@ -367,6 +382,16 @@ func runOwnHist(seed uint64, n int, sqls, special []string, concurrent bool) own
 				r.h.Ops = append(r.h.Ops, ownOp{Op: "dropall"})
 				r.h.Trace = append(r.h.Trace, "GC")
 			default:
+				if rg.intn(4) == 0 { // a parse that fails (the parser drops what it had obtained from the pools)
+					q := rejected[rg.intn(len(rejected))]
+					if tr, err := gosqlx.Parse(q); err == nil && tr != nil {
+						r.release(r.register(tr, q, "ReleaseAST", nil))
+					} else {
+						r.h.Lossy = true
+					}
+					r.h.Trace = append(r.h.Trace, "ParseFailed("+short(q)+")")
+					break
+				}
 				if len(r.held) > 0 {
 					tr := r.held[rg.intn(len(r.held))]
 					r.h.Ops = append(r.h.Ops, ownOp{Op: "observe", T: tr.t, I: r.ids[tr.root]})
